@@ -49,7 +49,7 @@ Print Assumptions C04_initial_state_wf.
 
 (* a skipped statement has no effect at all: not executed, nothing logged or buffered, its want not compared *)
 Theorem C04_skipped_no_effect : forall requires_met cfg oc s i p rs',
-  r_end s = E_running -> rs_update requires_met (r_rs s) (p_directives p) = UOk rs' ->
+  r_end s = E_running -> part_update requires_met (r_rs s) p = UOk rs' ->
   rs_skips rs' || negb (has_any_code p) = true ->
   let s' := step requires_met cfg oc s i p in
   r_skipped s' = r_skipped s ++ [i] /\ r_executed s' = r_executed s /\ r_checked s' = r_checked s /\
